@@ -227,7 +227,7 @@ class sumtensor:
                 "Sumtensor only supports collections of tensor, sptensor, ktensor, "
                 f"and ttensor but received: {type(other)}"
             )
-        return ttb.sumtensor(updated_parts, copy=False)
+        return ttb.sumtensor(updated_parts, copy=True)
 
     def __radd__(self, other):
         """
